@@ -140,6 +140,29 @@ pub fn run(args: &Args) -> i32 {
             reached.push((wide.clone(), h.clone()));
         }
     }
+    // (1b) small alphabets searched towards their fixpoints (privacy x one feature x data changes)
+    {
+        use TraceEv::{Branch, Path3, Path5};
+        let rich = WorldCfg { size: (130, 40), extra_args: vec!["--tui-address-mode".into(), "both".into(), "--tui-as-mode".into(), "name".into(), "--tui-geoip-mode".into(), "long".into()], ..WorldCfg::default() };
+        let small: Vec<(&str, Vec<&'static str>, Vec<TraceEv>)> = vec![
+            ("privacy-details", vec!["expand_privacy", "contract_privacy", "next_hop", "previous_hop", "toggle_hop_details", "next_hop_address"], vec![Path3, Branch]),
+            ("privacy-map-chart", vec!["expand_privacy", "contract_privacy", "next_hop", "toggle_map", "toggle_chart", "clear_selection"], vec![Path3, Path5]),
+            ("privacy-flows-freeze", vec!["expand_privacy", "contract_privacy", "toggle_flows", "next_trace", "previous_trace", "toggle_freeze", "clear_trace_data"], vec![Path3, Branch, Path5]),
+        ];
+        for (name, keys, traces) in small {
+            let mut al: Vec<Ev> = keys.into_iter().map(Ev::Key).collect();
+            al.extend(traces.into_iter().map(|t| Ev::Trace(t, 0)));
+            let depth = if tier == Tier::Thorough { 16 } else { 10 };
+            let r = explore::bfs(&rich, &al, &[], depth, if tier == Tier::Thorough { 100_000 } else { 3_000 }, &mk);
+            states += r.states;
+            transitions += r.transitions;
+            max_depth = max_depth.max(r.max_depth);
+            for (h, f) in &r.fails {
+                record(&mut findings, &rich, h, f, None);
+            }
+            phases.push(json!({"phase": format!("small:{name}"), "alphabet": al.len(), "depth_bound": depth, "states": r.states, "transitions": r.transitions, "max_depth": r.max_depth, "fixpoint_reached": r.fixpoint, "failures": r.fails.len()}));
+        }
+    }
     // (2) every AS mode x GeoIP mode x address mode, from a populated trace with privacy in force
     let root = vec![Ev::Trace(TraceEv::Path3, 0), Ev::Trace(TraceEv::Branch, 0), Ev::Trace(TraceEv::Path5, 0)];
     let mut n_cfg = 0;
@@ -255,7 +278,7 @@ pub fn run(args: &Args) -> i32 {
     rep.set("frames_redrawn_at_other_sizes", json!(redraws));
     rep.set("positive_half_checks", json!(positive));
     rep.set("phases", json!(phases));
-    rep.set("rule", json!("same engine as C17 (real TuiApp/render/Tracer, replayed histories, BFS de-duplicated on the canonical key). Every hop address has a recognisable address, hostname, AS number/name/prefix/registry and GeoIP city/region/country/continent/coordinates/postal code (seeded DNS cache, generated MaxMind fixture). After EVERY draw every row of the TestBackend buffer is searched for the 6-character prefix of every secret of every responding hop with TTL <= n (all flows) and for the source address/hostname. (1) 23-event alphabet (privacy, details, selection, map/chart/flows, address modes, AS toggle, hosts, settings/help, freeze, 4 trace updates) to the depth bound; (2) 6 AS modes x 4 GeoIP modes x 3 address modes with rotating initial n from a populated multi-flow trace; (3) positive half at 140 columns: hops above n show their address; (4) reached states re-drawn at other sizes with the oracle on each frame. Keyboard half: every expand/contract_privacy step in the search is compared with off -> 0 -> .. -> hop count"));
+    rep.set("rule", json!("same engine as C17 (real TuiApp/render/Tracer, replayed histories, BFS de-duplicated on the canonical key). Every hop address has a recognisable address, hostname, AS number/name/prefix/registry and GeoIP city/region/country/continent/coordinates/postal code (seeded DNS cache, generated MaxMind fixture). After EVERY draw every row of the TestBackend buffer is searched for the 6-character prefix of every secret of every responding hop with TTL <= n (all flows) and for the source address/hostname. (1) 23-event alphabet (privacy, details, selection, map/chart/flows, address modes, AS toggle, hosts, settings/help, freeze, 4 trace updates) to the depth bound; (1b) three small alphabets (privacy x details, privacy x map/chart, privacy x flows x freeze x clear) searched to depth 10 / 16 towards their fixpoints; (2) 6 AS modes x 4 GeoIP modes x 3 address modes with rotating initial n from a populated multi-flow trace; (3) positive half at 140 columns: hops above n show their address; (4) reached states re-drawn at other sizes with the oracle on each frame. Keyboard half: every expand/contract_privacy step in the search is compared with off -> 0 -> .. -> hop count"));
     rep.sample(json!({"config": "as-mode name, geoip long, address both, privacy 2", "history": ["trace0:Path3", "trace0:Branch", "trace0:Path5", "key:toggle_hop_details", "key:next_hop", "key:next_hop_address"]}));
     rep.assumptions = vec!["the user-supplied target in the header/tabs is not a hop and is exempt (DESIGN.md 5.7)".into(), "secrets are recognised by unique 6-character prefixes that are not substrings of any locale string".into()];
     rep.finish()
